@@ -132,6 +132,12 @@ def run(ctx, chk):
         else:
             chk.fail('C18.4', 'callers:%s' % cfg, 'IO::set_byte is called from %s, set_control from %s' % (cs, cs2),
                      file, line)
+    # ---- rule 5: translated code makes the same ordered bus accesses as the interpreter (so SB/SC writes issued by
+    # translated code arrive in program order); decided by the value-level comparison of gbsa/jitsem.py
+    chk.rule('C18.5', 'D', 'both execution modes: for every encoding the byte accesses made by the emitted x86 code '
+             '(kind, order, address, value) equal the interpreter\'s', floor=400)
+    from .. import jitsem
+    jitsem.apply_rule(ctx, chk, 'C18.5', lambda c: c == 'bus')
     chk.assumptions += ['std::io::stdout().write/flush are synchronous on the calling thread',
                         'eprintln!/stderr is a different stream and is not restricted']
     return chk.finish('Effect confinement over the resolved call graph of both build configurations '
